@@ -306,6 +306,10 @@ func (g *mgen) genSpec() *rspec.Spec {
 		if g.chance(0.35) {
 			s.Annotations[k] = fmt.Sprintf("orig-a%d", g.next())
 		}
+		if g.chance(0.1) {
+			// an item of the original whose own name starts with '-': only a "--name" marker removes it
+			s.Annotations["-"+k] = fmt.Sprintf("orig-dash-a%d", g.next())
+		}
 	}
 	for _, k := range envKeys {
 		if g.chance(0.35) {
@@ -714,7 +718,10 @@ func systematicSpecs() []sysSpec {
 					}
 				}
 				if p == "create-adjust" && k.removable && k.keyed {
-					pats = append(pats, "decoy-removal-then-set", "decoy-after-removal", "set-then-removed")
+					pats = append(pats, "decoy-removal-then-set", "decoy-after-removal", "set-then-removed", "remove-and-set-other")
+				}
+				if p == "create-adjust" && k.removable && d.b-d.a >= 2 {
+					pats = append(pats, "reset-then-collide")
 				}
 				pats = append(pats, "same-value")
 				if p != "create-adjust" && d.n == 2 {
@@ -871,6 +878,21 @@ func (g *mgen) genSystematic(id string, s sysSpec) *MCase {
 		rb.Adjust = &api.ContainerAdjustment{}
 		g.adjRemove(rb.Adjust, s.Kind, "-"+key)
 		g.adjSet(rb.Adjust, s.Kind, key, false)
+	case "reset-then-collide":
+		// A sets, the next plugin removes and sets again (it is the owner now), B sets plainly: a conflict
+		put(s.A, false, true)
+		put(s.A+1, true, true)
+		put(s.B, false, true)
+	case "remove-and-set-other":
+		// B's response removes key (which the original may hold) and, after the marker in the same list,
+		// sets a different key of the family: both take effect
+		put(s.A, false, true)
+		put(s.B, true, false)
+		other := kd.keys[0]
+		if other == key {
+			other = kd.keys[1]
+		}
+		g.adjSet(c.Resp[s.B].Adjust, s.Kind, other, false)
 	case "set-then-removed":
 		// A sets key (the original may hold it, too), B removes it and nobody sets it again: it is gone
 		put(s.A, false, true)
@@ -1004,7 +1026,7 @@ func (g *mgen) genSystematic(id string, s sysSpec) *MCase {
 	}
 	// innocents: unrelated annotation / resource fields from their own partitions
 	for p := 0; p < s.N; p++ {
-		if p == s.A || p == s.B || ((s.Pattern == "lone-removal-between" || s.Pattern == "remove-many-then-set" ||
+		if p == s.A || p == s.B || ((s.Pattern == "lone-removal-between" || s.Pattern == "remove-many-then-set" || s.Pattern == "reset-then-collide" ||
 			s.Pattern == "collision-after-ignored-drop" || s.Pattern == "ignored-partial-drop" || s.Pattern == "ignored-partial-drop-maps" || s.Pattern == "collision-after-ignored-drop-same-response") && p == s.A+1) {
 			continue
 		}
@@ -1012,6 +1034,16 @@ func (g *mgen) genSystematic(id string, s sysSpec) *MCase {
 		if kind == "create" {
 			r.Adjust = &api.ContainerAdjustment{}
 			g.adjSet(r.Adjust, "annotation", fmt.Sprintf("innocent-%d", p), false)
+			// ... and an unrelated item of the same family (another key), so that the collected list of that
+			// family holds entries of several plugins when the pattern's second step arrives
+			switch s.Kind {
+			case "env":
+				g.adjSet(r.Adjust, "env", fmt.Sprintf("INNOCENT_%d", p), false)
+			case "mount":
+				g.adjSet(r.Adjust, "mount", fmt.Sprintf("/innocent/%d", p), false)
+			case "device":
+				g.adjSet(r.Adjust, "device", fmt.Sprintf("/dev/innocent%d", p), false)
+			}
 		} else {
 			u := &api.ContainerUpdate{ContainerId: c.Others[2], Linux: &api.LinuxContainerUpdate{}}
 			g.setResField(ensureRes(&u.Linux.Resources), "unified", fmt.Sprintf("innocent.%d", p), false)
